@@ -108,6 +108,8 @@ func c16(r *mon.Run) {
 		"not_null(a, b)", "max(a)", "min(a)", "sum(a)", "avg(a)", "max_by(a, &b)", "min_by(a, &@)", "join(',', a)", "length(a)", "to_string(a)", "to_number(a)", "type(a)", "contains(a, b)", "[a[*], a[], a.*]",
 		"`9007199254740993`", "a || `9007199254740993`", "[`9007199254740993`, `-9007199254740993`, `12345678901234567890`]", "not_null(missing, `18446744073709551615`)", "`{\"id\": 9007199254740993, \"ids\": [9223372036854775807]}`", "{big: `1e21`, id: `9007199254740995`}",
 		"merge(@, {self: @})", "merge(a, {k: a})", "a | merge(@, {d: @})", "[merge(a, {h: [a]})]", "merge({x: a}, {y: a}).x", "merge(a, {b: a.b})",
+		"a[?b == `1`]", "a[?b == 'x']", "a[?b != `null`]", "a[?@ == `1`]", "a[?b == `1`] | [0]", "[a[?b == `1`], a[?b != `1`]]", "{r: a[?b == 'x']}", "a[?b == `1`].b", "a[?b == b]", "a[?`1` == b]", "a[?b < `1`]", "a[?!b]", "a[?b && b]", "a[?b || b]",
+		"['\u00e9\\'', '\\'']", "{first: '\u00e9\\'', second: '\\''}", "['a\\'b', '\u00e9\u00e9\u00e9\\'\u00e9', 'c\\'', '\\'\U0001F600\\'']", "['\U0001F600\\'x', 'y\\'']", "join('', ['\u00e9\\'', '\\'\u00e9'])", "['\u00e9\\'', `\"\u00e9\"`, '\\'\u00e9', \"\u00e9\" || 'z\\'']", "[to_string('\u00e9\\''), '\\'']", "{a: '\u4e16\u754c\\'s', b: 's\\'', c: '\\'\u4e16'}",
 		"max(a[*].b)", "min(a[*].b)", "max(a[?b].b)", "min(a[?b > `5`].b)", "max(a[].b)", "min(a[1:].b)", "max(a[:0])", "sum(a[*].b)", "avg(a[?b].b)", "avg(a[*].b)", "max(*)", "min(a.*)", "max_by(a[?b], &b)", "sort(a[*].b)", "join('', a[*].b)",
 	}
 	tdocs := []interface{}{
